@@ -203,6 +203,15 @@ def catalogue(rng: random.Random):
         ("RichTrigEditor.add_triggers", lambda a: RichTrigEditor.add_triggers(*a),
          lambda: (lambda r: (list(sec(r, RichTrigSection).triggers[:2]), sec(r, RichTrigSection)))(rich())),
         ("RichMrgnEditor.add_locations", lambda a: RichMrgnEditor().add_locations(*a), lambda: (new_locs(), sec(rich(), RichMrgnSection))),
+        # the request given as a SET (what the public rebuilders hand over) holding, next to new objects, objects that already
+        # sit in the section: the caller's set must keep every member
+        ("RichMrgnEditor.add_locations (a set holding existing locations)", lambda a: RichMrgnEditor().add_locations(*a),
+         lambda: (lambda m: (set(new_locs()) | set(m.locations[:3]), m))(sec(rich(), RichMrgnSection))),
+        ("RichUprpEditor.add_cuwp_slots (a set holding existing slots)", lambda a: RichUprpEditor().add_cuwp_slots(*a),
+         lambda: (lambda u: ({RichCuwpSlot(10 + i, 20, 30) for i in range(3)} | set(u.cuwp_slots[:2]), u))(sec(rich(), RichUprpSection))),
+        ("RichSwnmEditor.add_switches (a set holding existing switches)", lambda a: RichSwnmEditor().add_switches(*a),
+         lambda: (lambda w: ({RichSwitch(RichString("c13 set sw"))} | set(w.switches[:2]), w))(
+             RichSwnmSection(_switches=[RichSwitch(RichString("old a"), 5), RichSwitch(RichString("old b"), 6)]))),
         ("RichUprpEditor.add_cuwp_slots", lambda a: RichUprpEditor().add_cuwp_slots(*a),
          lambda: ([RichCuwpSlot(10 + i, 20, 30) for i in range(3)], sec(rich(), RichUprpSection))),
         ("RichWavEditor.add_wav_files", lambda a: RichWavEditor().add_wav_files(*a),
